@@ -57,6 +57,10 @@ fn materialise(base: &Path, c: &Case) -> (PathBuf, Vec<String>) {
         let forms: Vec<String> = content.as_array().unwrap().iter().enumerate().map(|(k, f)| form_text(f, k + 10)).collect();
         // an include file is a list of forms; "()" (no forms) is also a valid s-expression / byte string for embedding
         let text = format!("({}\n)", forms.iter().map(|f| format!("\n  {f}")).collect::<String>());
+        // (a name may be qualified by a subdirectory: "v2/inc0.clinc")
+        if let Some(parent) = dir.join(n).parent() {
+            std::fs::create_dir_all(parent).unwrap();
+        }
         std::fs::write(dir.join(n), text).unwrap();
     }
     let mains: Vec<String> = c.main.as_array().unwrap().iter().enumerate().map(|(k, f)| form_text(f, k)).collect();
@@ -168,6 +172,22 @@ pub fn drive(args: &HashMap<String, String>) {
             path.swap(k, rng.random_range(0..=k));
         }
         let mut main = vec![json!(["include", names[0]])];
+        // a second file of the same base name below a subdirectory, included by its qualified name before or after the
+        // bare name (two different files whose paths end alike)
+        if i % 3 != 0 {
+            let k = rng.random_range(0..names.len());
+            let qualified = format!("v2/{}", names[k]);
+            files.push((dirs[rng.random_range(0..3)].to_string(), qualified.clone(), json!([])));
+            let bare = json!(["include", names[k]]);
+            let qual = json!(["include", qualified]);
+            if i % 2 == 0 {
+                main.insert(0, qual);
+                main.push(bare);
+            } else {
+                main.push(bare);
+                main.push(qual);
+            }
+        }
         if names.len() > 2 && rng.random_bool(0.5) {
             main.push(json!(["embed", "bin", names[names.len() - 1]]));
         }
@@ -208,7 +228,9 @@ pub fn drive(args: &HashMap<String, String>) {
                     // each listed path must be the first match of its file name in search-path order
                     let mut wrong = vec![];
                     for l in &listed {
-                        let name = Path::new(l).file_name().map(|x| x.to_str().unwrap().to_string()).unwrap_or_default();
+                        // the name the file was asked for by: its path below the search directory it was found in
+                        let name = search.iter().find_map(|d| l.strip_prefix(&format!("{d}/")).map(|x| x.to_string()))
+                            .unwrap_or_else(|| Path::new(l).file_name().map(|x| x.to_str().unwrap().to_string()).unwrap_or_default());
                         let fm = first_match(&search, &name);
                         if fm.as_deref() != Some(l.as_str()) {
                             wrong.push(json!({"listed": strip(l), "first_match": fm.map(|x| strip(&x))}));
